@@ -484,6 +484,37 @@ def check_mappings(res):
     acts.append(("copy", lambda m: m.copy()))
     acts.append(("invert", lambda m: m.invert()))
     acts.append(("map", lambda m: [m.map(2, 1), m.map_result(1, -1).pos]))
+    # original / copy pairs: whatever is done to one must leave the other exactly as it was
+    def state(mp):
+        return jkey([[[list(x.ranges), x.inverted] for x in mp.maps], list(mp.mirror or []), mp.from_, mp.to])
+
+    pair_acts = [a for a in acts if a[0] in ("append_map", "append_map+mirror", "append_mapping", "append_mapping_inverted")]
+    for start_mirrored in (False, True):
+        for seq in itertools.product(range(len(pair_acts)), ("M", "K"), repeat=2):
+            if start_mirrored:
+                M = A.Mapping([maps[0], maps[0].invert()], [0, 1])
+            else:
+                M = A.Mapping([maps[2]])
+            K = M.copy()
+            hist = []
+            for i in range(0, len(seq), 2):
+                idx, who = seq[i], seq[i + 1]
+                name, fn = pair_acts[idx]
+                hist.append([who, name])
+                target, other = (M, K) if who == "M" else (K, M)
+                before_other = state(other)
+                res.transitions += 1
+                try:
+                    fn(target)
+                except Exception as e:  # noqa: BLE001
+                    res.violate("c10.mapping.raises", {"history": hist}, common.exc_str(e))
+                    break
+                res.validated += 1
+                if state(other) != before_other:
+                    res.violate("c10.mapping.copy-not-independent", {"history": hist, "start_mirrored": start_mirrored},
+                                state(other)[:300], before_other[:300])
+                    break
+            res.states += 1
     n = 0
     for seq in itertools.product(range(len(acts)), repeat=3):
         m = A.Mapping([maps[2]])
